@@ -1427,6 +1427,13 @@ class SocketStream(abc.SocketStream):
 
             await self._protocol.write_event.wait()
 
+            # The event is also set when the connection is lost, in which case the
+            # transport has discarded whatever it had not written yet
+            if self._closed:
+                raise ClosedResourceError
+            elif self._protocol.exception is not None:
+                raise BrokenResourceError from self._protocol.exception
+
     async def send_eof(self) -> None:
         try:
             self._transport.write_eof()
